@@ -77,6 +77,12 @@ func newRecOS(id int, rec *recorder, sentDir string) *recOS {
 	o.dirs[sentDir+"/sub"] = true
 	o.files[sentDir+"/sentinel.txt"] = []byte(fmt.Sprintf("virtual-content-%d\nline2\n", id))
 	o.files[sentDir+"/sub/inner.txt"] = []byte("virtual-inner")
+	// and the same names relative to the virtual working directory
+	o.dirs["/virtual"] = true
+	o.dirs["/virtual/cwd"] = true
+	o.dirs["/virtual/cwd/sub"] = true
+	o.files["/virtual/cwd/sentinel.txt"] = []byte(fmt.Sprintf("virtual-content-%d\nline2\n", id))
+	o.files["/virtual/cwd/sub/inner.txt"] = []byte("virtual-inner")
 	o.env["C12_SENTINEL"] = fmt.Sprintf("virtual-%d", id)
 	o.env["WHO"] = fmt.Sprintf("os%d", id)
 	return o
@@ -680,8 +686,8 @@ func main() {
 			enc.SetEscapeHTML(false)
 			enc.Encode(obs)
 			w.Write(buf.Bytes())
+			w.Flush() // a later case may kill the process: what was observed so far must not be lost
 		}
-		w.Flush()
 	default:
 		fmt.Fprintln(os.Stderr, "unknown subcommand")
 		os.Exit(2)
